@@ -76,6 +76,8 @@ pub struct Gen {
     pub lifecycle_pct: u64,
     /// percent of statements that are a PURGE (0 for the C17 histories: the monitor's log is append-only)
     pub purge_pct: u64,
+    /// percent of statements that name one tuple / one concept key several times in one block
+    pub dup_pct: u64,
 }
 
 struct Block {
@@ -104,14 +106,16 @@ impl Block {
 
 impl Gen {
     pub fn new(rng: Rng, fault_pct: u64, dry_pct: u64) -> Gen {
-        Gen { rng, n: 0, fault_pct, dry_pct, lifecycle_pct: 12, purge_pct: 0 }
+        Gen { rng, n: 0, fault_pct, dry_pct, lifecycle_pct: 12, purge_pct: 0, dup_pct: 12 }
     }
 
     pub fn next(&mut self, m: &Mirror) -> Stmt {
         self.n += 1;
         let r = self.rng.below(100);
         let empty = m.persons.is_empty();
-        let mut s = if !empty && r < self.purge_pct {
+        let mut s = if self.rng.below(100) < self.dup_pct {
+            self.dup_block(m)
+        } else if !empty && r < self.purge_pct {
             self.purge(m)
         } else if !empty && r < self.purge_pct + self.lifecycle_pct {
             self.lifecycle(m)
@@ -519,6 +523,111 @@ impl Gen {
             _ => "",
         };
         Stmt { text: format!(r#"PURGE "{}"{policy} CONFIRM "PURGE""#, e.0), params: None, dry: false, tag: format!("purge:{}", e.1) }
+    }
+
+    /// One not-yet-committed (or committed) tuple named two or three times in one block, in every spelling:
+    /// anonymous / handled ENSURE, ASSERT sugar with and without a handle, endpoints written as handles of
+    /// this block, as handles bound by UPSERT-by-id, as id parameters (string or {id: ..} object); clause
+    /// order shuffled, other clauses in between. And one Concept key claimed twice via CREATE / UPSERT.
+    fn dup_block(&mut self, m: &Mirror) -> Stmt {
+        let mut b = Self::empty_block();
+        let mut tag = String::from("dup");
+        if self.rng.chance(1, 4) {
+            // the same (type, key) claimed twice
+            let key = format!("dk{}", self.rng.below(3));
+            let ty = *self.rng.pick(&["Person", "Preference"]);
+            for i in 0..2 {
+                let h = b.fresh("k");
+                if self.rng.chance(1, 2) {
+                    b.clauses.push(format!(r#"CREATE CONCEPT ?{h} {{ TYPE "{ty}" NAME "K{i}" SET FIELDS {{key: "{key}"}} }}"#));
+                    tag.push_str(":key-create");
+                } else {
+                    b.clauses.push(format!(r#"UPSERT CONCEPT ?{h} {{ MATCH {{type: "{ty}", key: "{key}"}} SET FIELDS {{name: "U{i}"}} }}"#));
+                    tag.push_str(":key-upsert");
+                }
+            }
+            if self.rng.chance(1, 2) {
+                self.evidence_clause(&mut b);
+            }
+        } else {
+            let fresh = m.persons.is_empty() || self.rng.chance(1, 2);
+            let existing_s = if fresh { None } else { Some(self.rng.pick(&m.persons).0.clone()) };
+            let existing_o = if fresh { None } else { m.any_concept(&mut self.rng) };
+            let (mut hs, mut ho) = (String::new(), String::new());
+            if fresh {
+                hs = b.fresh("s");
+                ho = b.fresh("o");
+                b.clauses.push(format!(r#"CREATE CONCEPT ?{hs} {{ TYPE "Person" NAME "S{}" }}"#, self.n));
+                b.clauses.push(format!(r#"CREATE CONCEPT ?{ho} {{ TYPE "Preference" NAME "O{}" }}"#, self.n));
+                tag.push_str(":fresh-endpoints");
+            } else {
+                tag.push_str(":existing-endpoints");
+            }
+            let pred = if self.rng.chance(2, 3) { "prefers" } else { "same_as" };
+            let namings = 2 + self.rng.below(2);
+            let mut upsert_handles: Vec<(String, String)> = vec![]; // (id, handle) bound once per block
+            for _ in 0..namings {
+                let mut endpoint = |this: &mut Gen, b: &mut Block, fresh_h: &str, id: &Option<String>, tag: &mut String| -> String {
+                    match id {
+                        None => format!("?{fresh_h}"),
+                        Some(id) => match this.rng.below(3) {
+                            0 => {
+                                tag.push_str(":ep-param");
+                                b.param(json!(id))
+                            }
+                            1 => {
+                                tag.push_str(":ep-param-object");
+                                b.param(json!({"id": id}))
+                            }
+                            _ => {
+                                tag.push_str(":ep-upsert-handle");
+                                if let Some((_, h)) = upsert_handles.iter().find(|(i, _)| i == id) {
+                                    format!("?{h}")
+                                } else {
+                                    let h = b.fresh("x");
+                                    b.clauses.push(format!(r#"UPSERT CONCEPT ?{h} {{ MATCH {{id: "{id}"}} SET ATTRIBUTES {{description: "seen{}"}} }}"#, this.rng.below(2)));
+                                    upsert_handles.push((id.clone(), h.clone()));
+                                    format!("?{h}")
+                                }
+                            }
+                        },
+                    }
+                };
+                let s = endpoint(self, &mut b, &hs, &existing_s, &mut tag);
+                let o = endpoint(self, &mut b, &ho, &existing_o, &mut tag);
+                match self.rng.below(4) {
+                    0 => {
+                        b.clauses.push(format!(r#"ENSURE PROPOSITION ({s}, "{pred}", {o})"#));
+                        tag.push_str(":anon-ensure");
+                    }
+                    1 => {
+                        let h = b.fresh("q");
+                        b.clauses.push(format!(r#"ENSURE PROPOSITION ?{h} ({s}, "{pred}", {o})"#));
+                        tag.push_str(":handled-ensure");
+                    }
+                    2 => {
+                        b.clauses.push(format!(r#"ASSERT ({s}, "{pred}", {o}) {{ by: {s}, mode: "stated", confidence: 0.{} }}"#, 1 + self.rng.below(9)));
+                        tag.push_str(":anon-assert");
+                    }
+                    _ => {
+                        let h = b.fresh("a");
+                        b.clauses.push(format!(r#"ASSERT ?{h} ({s}, "{pred}", {o}) {{ by: {s}, mode: "observed", stance: "reject" }}"#));
+                        tag.push_str(":handled-assert");
+                    }
+                }
+            }
+            for _ in 0..self.rng.below(3) {
+                match self.rng.below(3) {
+                    0 => self.evidence_clause(&mut b),
+                    1 => self.pref_clause(&mut b),
+                    _ => self.activity_clause(&mut b),
+                }
+            }
+        }
+        let mut clauses = std::mem::take(&mut b.clauses);
+        self.rng.shuffle(&mut clauses);
+        let text = format!("MUTATE {{\n  {}\n}}", clauses.join("\n  "));
+        Stmt { text, params: if b.params.is_empty() { None } else { Some(Value::Object(b.params)) }, dry: false, tag }
     }
 
     fn single(&mut self, m: &Mirror) -> Stmt {
